@@ -290,11 +290,16 @@ pub fn leaf_values(ty: &Ty) -> Vec<Val> {
         Ty::DtLocal => datetimes(&mid_dates()),
         Ty::DtFixed => {
             let offs = [0i128, 3600, -3600, 86_399, -86_399, 19800];
-            datetimes(&mid_dates())
+            let mut v: Vec<Val> = datetimes(&mid_dates())
                 .into_iter()
                 .enumerate()
                 .map(|(i, dt)| Val::Tuple(vec![dt, Val::I(offs[i % offs.len()])]))
-                .collect()
+                .collect();
+            // the ends of the calendar, with an offset that keeps the instant representable (a
+            // one-byte change of the offset does not)
+            v.push(Val::Tuple(vec![Val::Tuple(vec![date(262142, 12, 31), time(23, 30, 0, 0)]), Val::I(3600)]));
+            v.push(Val::Tuple(vec![Val::Tuple(vec![date(-262143, 1, 1), time(0, 30, 0, 0)]), Val::I(-3600)]));
+            v
         }
         Ty::DtTz => {
             let tz = tz_names();
